@@ -6,7 +6,7 @@ with ARBITRARY scripts: any produce call of any pass and any rewind call may thr
 `C09_no_hang` is about the code with fixes/C09-1.diff (`C09_fix_present`); for the pinned code it is false:
 see C09Witness.lean.
 -/
-import DmlcModel.TIter.Corollaries
+import DmlcModel.TIter.Progress
 
 namespace DmlcModel.Props.C09
 open DmlcModel DmlcModel.TIter DmlcModel.Gen.TIter
@@ -138,10 +138,36 @@ theorem C09_destroy_no_hang (hcap : 1 ≤ P.cap) (h : Reachable P s) (hx : s.xlo
     ∃ e : Event, e.isProgress = true ∧ (step P s e).isSome = true :=
   C09_no_hang hcap h (Or.inr (by simp [hx]))
 
-/-- full statement of termination (every call returns, Destroy returns); NOT proved beyond `C09_no_hang`:
-there is no infinite sequence of progress events once no further calls are started -/
+/-- statement of termination -/
 def C09_termination_statement (P : Params) : Prop :=
   1 ≤ P.cap → ∀ s, Reachable P s → inCall s →
     ¬ ∃ f : Nat → State, f 0 = s ∧ ∀ n, ∃ e : Event, e.isProgress = true ∧ step P (f n) e = some (f (n + 1))
+
+/-- no infinite execution of the calls in progress, whatever the scripts throw -/
+theorem C09_termination (P : Params) : C09_termination_statement P :=
+  fun _ _ hr _ => no_infinite_progress hr
+
+/-- nothing hangs, everything returns (any scripts, repaired code): from any reachable state every execution of
+the calls in progress is finite (`C09_termination`) and can only stop when every started call -- Next, Recycle,
+BeforeFirst, Destroy with its join -- has returned; such an execution exists.  In particular Destroy returns. -/
+theorem C09_all_calls_return (hcap : 1 ≤ P.cap) (h : Reachable P s) :
+    (∀ t, ProgSteps P s t → (∀ e : Event, e.isProgress = true → step P t e = none) → busy t = 0 ∧ t.xloc = .idle) ∧
+    (∃ t, ProgSteps P s t ∧ busy t = 0 ∧ t.xloc = .idle) := by
+  have key : ∀ t, Reachable P t → (∀ e : Event, e.isProgress = true → step P t e = none) →
+      busy t = 0 ∧ t.xloc = .idle := by
+    intro t ht hq
+    have hnc : ¬ inCall t := by
+      intro hc
+      obtain ⟨e, hp, hs⟩ := C09_no_hang hcap ht hc
+      rw [hq e hp] at hs
+      cases hs
+    unfold inCall at hnc
+    constructor
+    · omega
+    · cases hx : t.xloc <;> simp_all
+  constructor
+  · intro t ht hq; exact key t (progSteps_reachable h ht) hq
+  · obtain ⟨t, ht, hq⟩ := exists_maximal h
+    exact ⟨t, ht, key t (progSteps_reachable h ht) hq⟩
 
 end DmlcModel.Props.C09
